@@ -102,5 +102,7 @@ def harness(E):
     h = History(E, t, ref, pool, P["alphabet"], P)
     h.prelude(P.get("prelude"))
     for i in range(P["n"]):
+        if i > 0 or P.get("prelude"):
+            battery(E, t, h)       # query, write, query again
         h.step(i)
     battery(E, t, h)
